@@ -300,4 +300,91 @@ def minkowski_rules(db, chk, cfg, rule="MINK"):
             if not ok:
                 chk.violation(rule + ".union", fn.qual, fn.sig[:30], "%s must return Union(Minkowski(pattern, path, %s, isClosed), NonZero)" % (q, want_sum),
                               fn.where, cfg=cfg)
+    # (g) roles: the pattern is always a closed outline, isClosed speaks about the path.  Every call of detail::Minkowski - from the
+    # public functions and from itself - must hand the caller's pattern to the pattern slot and the caller's path to the path slot
+    # (a swap is only the same region for the sum of two closed outlines: both flags literally true).
+    for fn in db.funcs:
+        if fn.body is None or fn.is_pattern:
+            continue
+        calls = [x for x in walk(fn.body) if x.get("kind") == "CallExpr" and db.callee(x)[0] == "Minkowski" and
+                 (db.callee_func(x) is None or db.callee_func(x).id == f.id)]
+        if not calls:
+            continue
+        if len(fn.params) < 2:
+            raise AnalysisBroken("%s calls detail::Minkowski but has no (pattern, path) parameters" % fn.qual)
+        p0, p1 = fn.params[0]["name"], fn.params[1]["name"]
+        local_src = {}
+        for x in walk(fn.body):
+            if x.get("kind") == "VarDecl" and x.get("name"):
+                init = [c for c in kids(x) if isinstance(c, dict) and c.get("kind")]
+                if init:
+                    local_src[x["name"]] = {y.get("referencedDecl", {}).get("name") for y in walk(init[-1]) if y.get("kind") == "DeclRefExpr"} & {p0, p1}
+
+        def roles(e):
+            out = set()
+            for y in walk(e):
+                if y.get("kind") == "DeclRefExpr":
+                    nm = y.get("referencedDecl", {}).get("name")
+                    if nm in (p0, p1):
+                        out.add(nm)
+                    elif nm in local_src:
+                        out |= local_src[nm]
+            return out
+        for c in calls:
+            a = db.call_args(c)
+            r0, r1 = roles(a[0]), roles(a[1])
+            ok = r0 == {p0} and r1 == {p1}
+            if not ok and r0 == {p1} and r1 == {p0} and canon(a[2]) == "true" and canon(a[3]) == "true":
+                ok = True
+            n += 1
+            chk.instance(rule + ".roles", {"caller": fn.qual, "sig": fn.sig[:50], "pattern_slot": sorted(r0), "path_slot": sorted(r1), "cfg": cfg}, ok=ok)
+            if not ok:
+                chk.violation(rule + ".roles", fn.qual, "%s|%s" % (fn.sig[:30], canon(c)[:50]),
+                              "call `%s`: the pattern slot receives %s and the path slot %s; the pattern is always treated as a closed outline and "
+                              "isClosed describes the path, so the caller's %s must go to the pattern slot and its %s to the path slot"
+                              % (canon(c)[:90], sorted(r0) or "nothing of the caller's operands", sorted(r1) or "nothing of the caller's operands", p0, p1),
+                              where(c), cfg=cfg)
+    return n
+
+
+def group_strip_rule(db, chk, cfg, rule="GROUP.strip-closed"):
+    """ClipperOffset::Group::Group removes repeated vertices from the paths it stores.  The *closing* repeat (last == first) may only
+    be removed when the paths are closed (EndType::Polygon or EndType::Joined): for Butt / Square / Round ends the last vertex of a path
+    that returns to its start is a real end point - removing it un-strokes the last segment and moves the cap."""
+    f = db.one("ClipperOffset::Group::Group", inst="EndType")
+    calls = [x for x in walk(f.body) if x.get("kind") == "CallExpr" and db.callee(x)[0] == "StripDuplicates"]
+    if not calls:
+        raise AnalysisBroken("ClipperOffset::Group::Group no longer calls StripDuplicates")
+    et = None
+    for en, vals in db.enums.items():
+        if set(("Polygon", "Joined", "Butt", "Square", "Round")) <= set(vals):
+            et = (en, list(vals))
+    if et is None:
+        raise AnalysisBroken("enum EndType not found")
+    pname = f.params[2]["name"] if len(f.params) >= 3 else None
+    n = 0
+    for c in calls:
+        arg = db.call_args(c)[1]
+        for name in et[1]:
+            v = et[1].index(name)
+            env = {"end_type": v}
+            if pname:
+                env[pname] = v
+            it = Interp(db, env)
+            try:
+                for s in kids(f.body):
+                    if s.get("kind") == "DeclStmt" and all(qt(d) in ("bool", "const bool") for d in kids(s) if d.get("kind") == "VarDecl"):
+                        for d in kids(s):
+                            init = [z for z in kids(d) if isinstance(z, dict) and z.get("kind")]
+                            if init:
+                                it.env[d["name"]] = it.ev(init[-1])
+                got = bool(it.ev(arg))
+            except Unsupported as e:
+                raise AnalysisBroken("cannot evaluate the is_closed_path argument of StripDuplicates in Group::Group: %s" % e)
+            want = name in ("Polygon", "Joined")
+            n += 1
+            chk.instance(rule, {"end_type": name, "closing_vertex_stripped": got, "cfg": cfg}, ok=(got == want))
+            if got != want:
+                chk.violation(rule, f.qual, name, "for EndType::%s the group %s a closing vertex equal to the first one; it must be stripped exactly for "
+                              "the closed end types Polygon and Joined" % (name, "strips" if got else "keeps"), where(c), cfg=cfg)
     return n
